@@ -645,7 +645,8 @@ impl World {
 
     fn meta(path: &str, o: &Obj) -> ObjectMeta {
         ObjectMeta {
-            location: Path::from(path),
+            // keys are stored in their raw (already percent-encoded) form
+            location: Path::parse(path).unwrap_or_else(|_| Path::from(path)),
             last_modified: ts(o.mtime_ns),
             size: o.data.len() as u64,
             e_tag: Some(o.etag.to_string()),
@@ -963,7 +964,7 @@ impl ObjectStore for ActorStore {
                 objects.sort_by_key(|m| crate::rng::mix(&[salt, crate::rng::hash_str(m.location.as_ref())]));
             }
             Ok(ListResult {
-                common_prefixes: common.into_iter().map(Path::from).collect(),
+                common_prefixes: common.into_iter().map(|p| Path::parse(&p).unwrap_or_else(|_| Path::from(p.as_str()))).collect(),
                 objects,
             })
         };
